@@ -127,6 +127,16 @@ func (cs c11Case) spec() *GenomeSpec {
 		g.Modules = []ModuleSpec{
 			{Innov: 100, Mut: 1, En: cs.Module == 3 || cs.Module == 5, NodeID: 50, Act: 22, Trait: 0, Inputs: []int{sensors[0], sensors[1]}, Outputs: []int{neurons[0], neurons[len(neurons)-1]}, InW: []float64{1, 1}, OutW: []float64{1, 1}},
 			{Innov: 101, Mut: 2, En: cs.Module == 3 || cs.Module == 4, NodeID: 51, Act: 23, Trait: 1, Inputs: []int{neurons[0]}, Outputs: []int{neurons[1%len(neurons)]}, InW: []float64{1}, OutW: []float64{1}}}
+	case 7, 8:
+		// modules that intersect: three enabled modules share their first input, the output of the first is
+		// an input of the second, two of them write to the same node; 8: the same listed in another order
+		g.Modules = []ModuleSpec{
+			{Innov: 100, Mut: 1, En: true, NodeID: 50, Act: 22, Trait: 0, Inputs: []int{sensors[0], sensors[1]}, Outputs: []int{neurons[0]}, InW: []float64{1, 1}, OutW: []float64{1}},
+			{Innov: 101, Mut: 2, En: true, NodeID: 51, Act: 23, Trait: 1, Inputs: []int{sensors[0], neurons[0]}, Outputs: []int{neurons[len(neurons)-1]}, InW: []float64{1, 1}, OutW: []float64{1}},
+			{Innov: 102, Mut: 3, En: true, NodeID: 52, Act: 21, Trait: 1, Inputs: []int{sensors[0]}, Outputs: []int{neurons[len(neurons)-1]}, InW: []float64{1}, OutW: []float64{1}}}
+		if cs.Module == 8 {
+			g.Modules[0], g.Modules[2] = g.Modules[2], g.Modules[0]
+		}
 	}
 	return g
 }
@@ -544,11 +554,11 @@ func runC11(c *Ctx) {
 			e = 5
 		}
 		jobs = append(jobs, job{c11Case{Layout: li, Pass: 2}, 0, pow(5, e)})
-		for m := 1; m <= 6; m++ {
+		for m := 1; m <= 8; m++ {
 			jobs = append(jobs, job{c11Case{Layout: li, Pass: 1, Module: m}, 0, pow(3, 6)})
 		}
 	}
-	c.Rule = desc + "pass 1: every assignment {absent, enabled, disabled} to every candidate link (every source x every non-sensor target incl. self-loops); pass 2: {absent, plain, recurrent, both in parallel, recurrent + disabled plain} on the first candidates; modular variants (one module enabled / disabled; two modules in all four enabled/disabled combinations) over 3^6 link assignments; the candidate links include two that end in a sensor; for each expressed network: nodes, inputs/outputs in genome order (also behaviourally through LoadSensors), link multisets per node, control wiring, counts, and Node/Nodes/From/To/Edge/WeightedEdge/Weight/HasEdgeFromTo/HasEdgeBetween for ALL ordered pairs of ids (incl. absent ids and disabled modules' ids); organism phenotype caching and rebuild. non-trivial = distinct genomes expressed"
+	c.Rule = desc + "pass 1: every assignment {absent, enabled, disabled} to every candidate link (every source x every non-sensor target incl. self-loops); pass 2: {absent, plain, recurrent, both in parallel, recurrent + disabled plain} on the first candidates; modular variants (one module enabled / disabled; two modules in all four enabled/disabled combinations; three intersecting modules that share an input and a target, in two orders) over 3^6 link assignments; the candidate links include two that end in a sensor; for each expressed network: nodes, inputs/outputs in genome order (also behaviourally through LoadSensors), link multisets per node, control wiring, counts, and Node/Nodes/From/To/Edge/WeightedEdge/Weight/HasEdgeFromTo/HasEdgeBetween for ALL ordered pairs of ids (incl. absent ids and disabled modules' ids); organism phenotype caching and rebuild. non-trivial = distinct genomes expressed"
 	parFor(len(jobs), func(ji int) {
 		j := jobs[ji]
 		if c.Expired() {
